@@ -6,8 +6,33 @@ import (
 	"github.com/dgryski/go-spooky"
 )
 
+// keyHash collects the bytes of one key and hashes them with spooky.Hash32,
+// the function lookups use. The streaming spooky.New hasher returns a
+// different value than spooky.Hash32 for inputs of 96..191 bytes, which made
+// keys of those lengths impossible to find after they were written.
+type keyHash struct {
+	key []byte
+}
+
+func (h *keyHash) Write(p []byte) (int, error) {
+	h.key = append(h.key, p...)
+	return len(p), nil
+}
+
+func (h *keyHash) Sum32() uint32 { return spooky.Hash32(h.key) }
+
+func (h *keyHash) Sum(b []byte) []byte {
+	v := h.Sum32()
+	return append(b, byte(v>>24), byte(v>>16), byte(v>>8), byte(v))
+}
+
+func (h *keyHash) Reset() { h.key = h.key[:0] }
+
+func (h *keyHash) Size() int { return 4 }
+
+func (h *keyHash) BlockSize() int { return 1 }
+
 // New returns a new hash computing the cdb checksum.
 func cdbHash() hash.Hash32 {
-	d := spooky.New(0, 0)
-	return d
+	return &keyHash{}
 }
